@@ -51,7 +51,12 @@ MANIFEST = dict(
 
 
 def _build():
-    ov = checklib.gen_overlay(CID, [PKG])
+    # only this check's own hook files: other checks keep harnesses in the same package directory
+    import glob
+    extra = {}
+    for f in sorted(glob.glob(os.path.join(checklib.VERIF, "hooks", PKG, "c06_*.go"))):
+        extra[os.path.join(checklib.REPO, PKG, "zz_verif_" + os.path.basename(f))] = f
+    ov = checklib.gen_overlay(CID, [], extra)
     return checklib.go_test_build(CID, PKG, ov)
 
 
